@@ -484,6 +484,10 @@ func (db *DB) getActiveFileWriteOff() (off int64, err error) {
 			//set ActiveFileActualSize
 			db.ActiveFile.ActualSize = off
 
+			if off >= db.opt.SegmentSize {
+				break
+			}
+
 		} else {
 			if err == io.EOF {
 				break
